@@ -148,7 +148,26 @@ def pair(ctx, mon, f, finv, x, show=lambda v: v, **det):
     ctx.eq(mon, a, show(x), order='finv(f(x))', **det)
     ctx.eq(mon, b, show(x), order='f(finv(x))', **det)
 
+def cold_components(ctx):
+    """the module-level component functions used by a program that has not constructed any cipher object yet"""
+    import subprocess, sys, json
+    code = ("import json\nfrom crysp.aes import Sbox, Sbox_inv, gmul\nfrom crysp.poly import Poly\n"
+            "out = {}\n"
+            "out['sbox'] = [int(Sbox_inv(Sbox(Poly(bytes([x] * 4)))).ival[0]) for x in (0, 1, 0x53, 0xff)]\n"
+            "out['inv'] = [int(Sbox(Sbox_inv(Poly(bytes([x] * 4)))).ival[0]) for x in (0, 1, 0x53, 0xff)]\n"
+            "out['gmul'] = [gmul(0x57, 0x83), gmul(7, 1), gmul(0, 9)]\n"
+            "from crysp.utils.operators import rol, ror\nfrom crysp.bits import Bits\n"
+            "out['rot'] = [int(ror(rol(Bits(0xffffffff, 32), 7), 7)), int(rol(Bits(0x80000001, 32), 1))]\n"
+            "from crysp.serpent import _L, _Linv\nout['L'] = int(_Linv(_L(Bits((1 << 128) - 1, 128))))\n"
+            "print(json.dumps(out))")
+    r = subprocess.run([sys.executable, '-B', '-c', code], capture_output=True, text=True, timeout=300)
+    got = r.stdout.strip().splitlines()[-1] if r.returncode == 0 and r.stdout.strip() else 'EXC:' + (r.stderr.strip().splitlines() or ['?'])[-1][:160]
+    want = json.dumps({'sbox': [0, 1, 0x53, 0xff], 'inv': [0, 1, 0x53, 0xff], 'gmul': [0xc1, 7, 0], 'rot': [0xffffffff, 3], 'L': (1 << 128) - 1})
+    ctx.eq('aes:Sbox-pair', got, want, where='a pristine interpreter that has constructed no cipher object')
+
 def run_aes_comp(case, ctx, rng):
+    if case['pos'] == 0:
+        cold_components(ctx)
     from crysp.aes import AES, Sbox, Sbox_inv
     from crysp.poly import Poly
     pos = case['pos']
@@ -230,6 +249,10 @@ def run_serpent_l(case, ctx, rng):
     full = (1 << 128) - 1
     for i in range(case['lo'], case['hi']):
         for v in (1 << i, full ^ (1 << i), rng.getrandbits(128)):
+            pair(ctx, 'serpent:L-pair', _L, _Linv, Bits(v, 128), sh, v=v)
+        # states made of special 32-bit words (all ones, zero, single bits, complements): where a rotation or an xor hits a fixed point
+        for _ in range(6):
+            v = int.from_bytes(pattern(rng, 16, 'xwords'), 'little')
             pair(ctx, 'serpent:L-pair', _L, _Linv, Bits(v, 128), sh, v=v)
     ctx.exhaustive['Serpent linear layer pair on the 128 unit vectors'] += case['hi'] - case['lo']
 
